@@ -54,7 +54,7 @@ def clause_props(name):
         return {'C13'}
     if 'C02-' in name:
         return {'C02'}
-    if 'NoPoison' in name or 'C05-' in name:
+    if 'NoPoison' in name or 'C05-' in name or 'C05 ' in name:
         return {'C02', 'C05'}
     if 'dict.' in name and any(('dict.' + k) in name for k in STATS):
         return {'C18'}
@@ -73,6 +73,10 @@ def clause_props(name):
         out |= {'C01', 'C13'}
     if unit in ('BGP._open_received', 'BGP.negotiate_hold_time'):
         out |= {'C01', 'C05'}
+    if unit == 'BGP.connectionMade' and ('effect' in name or 'capabilit' in name):
+        # the OPEN a new connection sends, and the forgetting of the previous peer's capabilities before it is built:
+        # C05 (depends on configuration only) and C02 (nothing of an earlier session changes what the next one is offered)
+        out |= {'C02', 'C05'}
     if unit in ('BGP._update_received',):
         out |= {'C01', 'C10'}
     if unit in C12_UNITS and not ('dict.' in name and any(('dict.' + k) in name for k in STATS)):
